@@ -129,7 +129,7 @@ PROPS = {
         ],
     },
     "C12": {
-        "coq_targets": ["theories/Lang/Typing.vo", "theories/Lang/TypingStmt.vo"],
+        "coq_targets": ["theories/Lang/Typing.vo", "theories/Lang/TypingStmt.vo", "theories/Lang/TableRule.vo"],
         "harness": ["c12"],
         "tables": True,
         "disagreement_is_violation": True,
@@ -191,7 +191,7 @@ PROPS = {
         ],
     },
     "C01": {
-        "coq_targets": ["theories/VM/Corr.vo", "theories/VM/GenProofs.vo", "theories/VM/ValidateProofs.vo"],
+        "coq_targets": ["theories/VM/Corr.vo", "theories/VM/GenProofs.vo", "theories/VM/ValidateProofs.vo", "theories/Lang/TableRule.vo"],
         "harness": ["c01"],
         "tables": True,
         "disagreement_is_violation": True,
